@@ -54,7 +54,7 @@ def _gen_q(rng, field, opts, counter):
         kind = "selfc"
     q = {"f": field, "kind": kind}
     if kind == "selfk":
-        q["k"] = rng.pick([1, 1.0, True])
+        q["k"] = rng.pick([1, 1.0, True, 0.0, -0.0, 0.0, -0.0])  # equal under ==, not the same default
     if kind == "str" and opts.get("str_plain"):
         q["expr"] = field
     elif kind == "str":
